@@ -515,6 +515,37 @@ func init() {
 // schema (Go side): the declared header is the one looked up in the response, whatever its spelling
 // in the document - present and valid passes, absent but required fails, present and violating fails.
 func c08HeaderSpellings(meta *Meta) {
+	// a response header definition named Content-Type - in any spelling: header names are
+	// case-insensitive - is ignored (OpenAPI 3.0.3, Response Object, headers)
+	for _, spelling := range []string{"Content-Type", "content-type", "CONTENT-TYPE", "Content-type"} {
+		for _, required := range []bool{true, false} {
+			never := openapi3.NewStringSchema().WithEnum("no such media type")
+			hd := &openapi3.Header{Parameter: openapi3.Parameter{Required: required, Schema: never.NewRef()}}
+			desc := "ok"
+			resp := &openapi3.Response{Description: &desc, Headers: openapi3.Headers{spelling: &openapi3.HeaderRef{Value: hd}},
+				Content: openapi3.NewContentWithJSONSchema(openapi3.NewObjectSchema())}
+			op := openapi3.NewOperation()
+			op.Responses = openapi3.NewResponses()
+			op.Responses.Set("200", &openapi3.ResponseRef{Value: resp})
+			item := &openapi3.PathItem{Get: op}
+			doc := &openapi3.T{OpenAPI: "3.0.0", Info: &openapi3.Info{Title: "t", Version: "1"}, Paths: openapi3.NewPaths()}
+			route := &routers.Route{Spec: doc, Path: "/h", PathItem: item, Method: "GET", Operation: op}
+			hdr := http.Header{}
+			hdr.Set("Content-Type", "application/json")
+			in := &openapi3filter.ResponseValidationInput{RequestValidationInput: &openapi3filter.RequestValidationInput{Request: httptest.NewRequest("GET", "/h", nil), Route: route},
+				Status: 200, Header: hdr, Body: io.NopCloser(strings.NewReader("{}")), Options: &openapi3filter.Options{IncludeResponseStatus: true}}
+			var err error
+			pn := catchPanic(func() { err = openapi3filter.ValidateResponse(context.Background(), in) })
+			meta.Histogram["header spellings"]++
+			c := map[string]any{"header_definition": spelling, "required": required, "response": "Content-Type: application/json, body {}"}
+			if pn != nil {
+				meta.GoViolation = append(meta.GoViolation, map[string]any{"signature": "header-spelling:panic", "cases": []any{c}, "go_observation": fmt.Sprint(pn), "judgement": "ValidateResponse panicked"})
+			} else if err != nil {
+				meta.GoViolation = append(meta.GoViolation, map[string]any{"signature": "header-spelling:content-type-definition-not-ignored", "cases": []any{c}, "go_observation": err.Error(),
+					"judgement": "a response header definition named " + spelling + " was applied to the response's Content-Type"})
+			}
+		}
+	}
 	intS := openapi3.NewIntegerSchema().WithMax(6)
 	arrS := openapi3.NewArraySchema().WithItems(openapi3.NewIntegerSchema()).WithMaxItems(2)
 	objS := openapi3.NewObjectSchema().WithProperty("limit", openapi3.NewIntegerSchema().WithMax(6)).WithProperty("left", openapi3.NewIntegerSchema())
